@@ -1,1 +1,2 @@
 import NiflyXform.C20
+import NiflyXform.C13
